@@ -219,6 +219,15 @@ func (t *ZeroAllocTokenizer) GetStringConstant(s string) string {
 }
 
 // TokenizeExpression tokenizes an expression string with zero allocations
+// precedingBackslashes counts the backslashes directly before position pos
+func precedingBackslashes(s string, pos int) int {
+	n := 0
+	for i := pos - 1; i >= 0 && s[i] == '\\'; i-- {
+		n++
+	}
+	return n
+}
+
 func (t *ZeroAllocTokenizer) TokenizeExpression(expr string) []Token {
 	// Save current position and set new source context
 	savedSource := t.source
@@ -237,7 +246,9 @@ func (t *ZeroAllocTokenizer) TokenizeExpression(expr string) []Token {
 		c := t.source[t.position]
 
 		// Handle string literals
-		if (c == '"' || c == '\'') && (t.position == 0 || t.source[t.position-1] != '\\') {
+		// (a quote is escaped when an odd number of backslashes stands before it:
+		// 'a\\' ends at its second quote, 'a\\\'b' does not end at the middle one)
+		if (c == '"' || c == '\'') && precedingBackslashes(t.source, t.position)%2 == 0 {
 			if inString && c == stringDelimiter {
 				// End of string, add the string token
 				value := t.source[stringStart:t.position]
